@@ -1740,7 +1740,11 @@ class SpaceUpdater(SharedSpaceOperations):
                     namechain.append(set(getattr(space, attr).keys()))
                 members[attr] = set().union(*namechain)
 
-            conflict = set().intersection(*[n for n in members.values()])
+            conflict = set()
+            kinds = list(members.values())
+            for i, names in enumerate(kinds):
+                for others in kinds[i + 1:]:
+                    conflict |= names & others
             if conflict:
                 raise NameError("name conflict: %s" % conflict)
 
